@@ -88,4 +88,6 @@ Definition check_gather : rd verdict :=
 
 Definition check : rd verdict :=
   kind <- getz ;;
-  if kind =? 1 then check_gather else fail.
+  if kind =? 1 then check_gather
+  else if kind =? 2 then (n <- getz ;; ret (VProp 9 [n]))   (* the registry could not gather the metrics *)
+  else fail.
